@@ -1,3 +1,4 @@
+import logging
 import os
 import os.path
 import struct
@@ -20,6 +21,8 @@ from pdfminer.pdftypes import (
     LITERALS_JBIG2_DECODE,
     LITERALS_JPX_DECODE,
 )
+
+log = logging.getLogger(__name__)
 
 PIL_ERROR_MESSAGE = (
     "Could not import Pillow. This dependency of pdfminer.six is not "
@@ -113,9 +116,34 @@ class ImageWriter:
         if not os.path.exists(self.outdir):
             os.makedirs(self.outdir)
 
+    @staticmethod
+    def _plausible_dimensions(width: object, height: object, bits: object) -> bool:
+        for v in (width, height, bits):
+            if not isinstance(v, int) or isinstance(v, bool):
+                return False
+        # BMP headers hold 32-bit numbers (sizes in bytes included)
+        if not (0 < width < 2**31 and 0 < height < 2**31 and 0 < bits <= 32):  # type: ignore[operator]
+            return False
+        return width * height * bits < 2**34  # type: ignore[operator]
+
     def export_image(self, image: LTImage) -> str:
         """Save an LTImage to disk"""
         (width, height) = image.srcsize
+
+        if not self._plausible_dimensions(width, height, image.bits):
+            # Width, Height or BitsPerComponent of a damaged image: nothing
+            # can be reconstructed, keep the bytes as they are
+            log.warning(
+                "Image %r has invalid dimensions %r x %r, %r bits: saved undecoded",
+                image.name,
+                width,
+                height,
+                image.bits,
+            )
+            name, path = self._create_unique_image_name(image, ".img")
+            with open(path, "wb") as fp:
+                fp.write(image.stream.get_data())
+            return name
 
         filters = image.stream.get_filters()
 
